@@ -505,7 +505,25 @@ fn run_metadata(ctx: &mut Ctx) -> Result<RunOut, Violation> {
     let _ = std::fs::remove_file(&path);
     let mut w = write_file(&path, seed, len);
     // A sub-second mtime, as real files have.
-    let mt = std::time::UNIX_EPOCH + std::time::Duration::new(1_600_000_000 + t.draw(100_000_000) as u64, t.draw(1_000_000_000));
+    // Past (2020..2023) or future (2040+) relative to the real clock; optionally the clock seam
+    // also reports a time far below every mtime (a machine whose clock is behind the file's).
+    let secs = if t.chance(1, 3) { 2_200_000_000 + t.draw(100_000_000) as u64 } else { 1_600_000_000 + t.draw(100_000_000) as u64 };
+    let mt = std::time::UNIX_EPOCH + std::time::Duration::new(secs, t.draw(1_000_000_000));
+    let slow_clock = t.chance(1, 3);
+    if slow_clock {
+        http_serve::verif::set_clock(Some(Box::new(|_| std::time::UNIX_EPOCH + std::time::Duration::from_secs(1_000_000_000))));
+        ctx.stats.bump("d_metadata_clock_before_mtime");
+    }
+    if secs > 2_000_000_000 {
+        ctx.stats.bump("d_metadata_mtime_in_future");
+    }
+    struct ClockReset;
+    impl Drop for ClockReset {
+        fn drop(&mut self) {
+            http_serve::verif::set_clock(None);
+        }
+    }
+    let _reset = ClockReset;
     w.set_modified(mt).expect("set mtime");
     let open = |p: &PathBuf| Crf::new(File::open(p).expect("open"), HeaderMap::new());
     ctx.ev("metadata", scenario as u64, len);
